@@ -77,3 +77,15 @@ func VerifFuncode(fn *Function) *compile.Funcode { return fn.funcode }
 
 // VerifOpcodeName names an opcode of the byte code in VerifFuncode(fn).Code.
 func VerifOpcodeName(op byte) string { return compile.Opcode(op).String() }
+
+// VerifCountOf reports the iterator counter of an object passed to the
+// VerifIter / VerifFreeze hooks (a *List or a hash table), or -1.
+func VerifCountOf(obj any) int {
+	switch o := obj.(type) {
+	case *List:
+		return int(o.itercount)
+	case *hashtable:
+		return int(o.itercount)
+	}
+	return -1
+}
